@@ -8,7 +8,7 @@ use std::{
     mem,
     ops::{Deref, DerefMut},
     path::PathBuf,
-    sync::{Arc, Mutex, MutexGuard, RwLock},
+    sync::{Arc, MutexGuard, RwLock},
 };
 
 use {
@@ -608,3 +608,9 @@ where
 unsafe impl<I> Trace for Import<I> {
     impl_trace! { self, _gc, () }
 }
+
+// The locks are the ones of `std` unless the build is instrumented for schedule exploration
+#[cfg(not(gluon_verif))]
+use std::sync::{Mutex};
+#[cfg(gluon_verif)]
+use crate::vm::verif::sync::{Mutex};
